@@ -25,13 +25,13 @@ VARIABLES st, l
 tvars == <<st, l>>
 
 NoCur == [ty |-> 0, val |-> NullV, pk |-> <<>>, canonical |-> FALSE, etype |-> "rec", allc |-> TRUE, isref |-> FALSE,
-          cmp |-> FALSE, perm |-> FALSE, extra |-> FALSE, deep |-> FALSE, src |-> "", stopped |-> FALSE]
+          cmp |-> FALSE, perm |-> FALSE, extra |-> FALSE, deep |-> FALSE, src |-> "", stopped |-> FALSE, lax |-> TRUE]
 NoDone == [has |-> FALSE, ok |-> FALSE, val |-> UnitRV, reps |-> <<>>, final |-> <<>>]
 
 InitSt == [stack |-> <<>>, cur |-> NoCur, made |-> {}, reps |-> <<>>, phase |-> "none", runbad |-> TRUE,
            refev |-> <<>>, pos |-> 0, diverged |-> FALSE, refok |-> FALSE,
            ref1 |-> [has |-> FALSE, mj |-> "", mq |-> ""], refdone |-> NoDone, rootexit |-> [ok |-> FALSE, val |-> UnitRV, ids |-> <<>>],
-           fnf |-> {}, ncall |-> 0, idp |-> <<>>, repids |-> <<>>,
+           fnf |-> {}, ncall |-> 0, idp |-> <<>>, repids |-> <<>>, waived |-> <<>>,
            vcount |-> [p \in Props |-> 0], viol |-> <<>>, nruns |-> 0, nev |-> 0, nrep |-> 0, nbrk |-> 0, ncmp |-> 0, nperm |-> 0, nmsg |-> 0,
            ncheck |-> [p \in Props |-> 0]]
 
@@ -55,8 +55,8 @@ StartRun(s, e) ==
                 allc |-> (e.dflt = "c" /\ AllOnes(e.script) /\ e.etype = "rec"), isref |-> isref,
                 cmp |-> (~isref /\ e.etype = "rec" /\ ~e.inp.perm /\ ~e.inp.extra /\ ~e.deep), perm |-> (~isref /\ e.inp.perm /\ e.etype = "rec"),
                 extra |-> (~isref /\ e.inp.extra /\ e.etype = "rec"),
-                deep |-> e.deep, src |-> e.src, stopped |-> FALSE]
-    IN [s EXCEPT !.stack = <<>>, !.cur = cur, !.made = {}, !.reps = <<>>, !.repids = <<>>, !.fnf = {}, !.idp = <<>>, !.phase = "idle", !.runbad = FALSE,
+                deep |-> e.deep, src |-> e.src, stopped |-> FALSE, lax |-> TRUE]
+    IN [s EXCEPT !.stack = <<>>, !.cur = cur, !.made = {}, !.reps = <<>>, !.repids = <<>>, !.fnf = {}, !.idp = <<>>, !.waived = <<>>, !.phase = "idle", !.runbad = FALSE,
                  !.refev = IF isref THEN <<>> ELSE @, !.pos = 0, !.diverged = FALSE,
                  !.refok = IF isref THEN TRUE ELSE @,
                  !.ref1 = IF isref THEN [has |-> FALSE, mj |-> "", mq |-> ""] ELSE @,
@@ -121,7 +121,10 @@ OnEnter(s, e) ==
         exact == {c \in cands : c.loc = e.loc /\ KindOfV(chv(c)) = e.vk /\ SummaryOf(chv(c)) = e.sc}
         pick(S) == CHOOSE c \in S : \A d \in S : ObLeq(c.ob, d.ob)
         push(c) == PushChild(s.stack, s.cur, c.n, c.loc, chv(c), c.ob, c.ety)
-    IN IF exact # {} THEN Seen([s EXCEPT !.stack = push(pick(exact))], {"C04", "C06", "C07", "C02"})
+    IN IF exact # {} THEN
+            LET c == pick(exact) IN
+            Seen([s EXCEPT !.stack = push(c), !.fnf = IF c.ob.o = "optval" THEN @ \cup {[f |-> "optval", loc |-> c.loc, j |-> c.ob.i]} ELSE @],
+                 {"C04", "C06", "C07", "C02"})
        ELSE IF cands # {} THEN
             LET byval == {c \in cands : KindOfV(chv(c)) = e.vk /\ SummaryOf(chv(c)) = e.sc}
                 byloc == {c \in cands : c.loc = e.loc}
@@ -140,7 +143,18 @@ OnEnter(s, e) ==
                ELSE IF otherVariant \/ (N.c = "enum" /\ F.ph = "bad") THEN Flag(s, {"C10"}, "a field of a variant the tag does not name is read")
                ELSE Flag(s, {"C02", "C06"}, "a child is examined that the container has no obligation for (twice, or out of range)")
 
-OnErr(s, e) ==
+\* Freedom: the report of a map key that cannot be parsed may be located at the map (the pinned code) or at the member's own
+\* position (it exists in the payload, and the report says nothing about the value there): the latter is read as the former.
+KeyLocNorm(s, e0) ==
+    IF s.phase # "running" \/ Len(s.stack) = 0 \/ e0.det.k # "unexpected" THEN e0
+    ELSE LET F == Top(s.stack) N == Nodes[F.n] IN
+         IF IsMapTarget(N) /\ F.ph = "work" /\ F.val.t = "map"
+            /\ \E j \in 1..Len(F.val.e) : e0.loc = Append(F.loc, KeyStep(F.val.e[j].k)) /\ ParseKey(s.cur.pk, N.name, F.val.e[j].k).z # "some"
+                                            /\ Contains(e0.det.msg, F.val.e[j].k)
+         THEN [e0 EXCEPT !.loc = F.loc] ELSE e0
+
+OnErr(s, e0) ==
+    LET e == KeyLocNorm(s, e0) IN
     IF s.phase # "running" \/ Len(s.stack) = 0 THEN Flag(s, {"CONF"}, "report outside a running call")
     ELSE IF e.id \in s.made THEN Flag(s, {"C01"}, "a report id is used twice")
     ELSE IF s.cur.stopped THEN Flag(s, {"C03"}, "a new report is produced although the error type answered stop and was never told to continue since")
@@ -201,14 +215,17 @@ OnMrg(s, e) ==
             \* the error of a user function on its way into the error type
             LET c == CHOOSE x \in Candidates(s.stack, s.cur) : x.e = "mrg" /\ x.ans = e.ans
                 isrep == F.ph # "fnm2"                                   \* this merge turns the function's error into a report
-                s2 == IF isrep THEN [s1 EXCEPT !.made = @ \cup {F.fnp.id}, !.reps = Append(@, FnDesc(F.fnp.f, e.loc)), !.repids = Append(@, F.fnp.id), !.nrep = @ + 1,
+                \* Freedom: what the deny_unknown_fields function returned may be merged at the container (the pinned code) or at the
+                \* offending member's own position - C09 fixes the arguments of the function, nothing fixes this merge location
+                locok == e.loc = c.loc \/ (F.ph = "fnmA" /\ F.fnp.k = "deny" /\ F.fnp.ob.o = "entry" /\ e.loc = Append(F.loc, KeyStep(F.val.e[F.fnp.ob.i].k)))
+                s2 == IF isrep THEN [s1 EXCEPT !.made = @ \cup {F.fnp.id}, !.reps = Append(@, FnDesc(F.fnp.f, IF locok THEN c.loc ELSE e.loc)), !.repids = Append(@, F.fnp.id), !.nrep = @ + 1,
                                                !.ref1 = IF s.cur.isref /\ ~@.has THEN [has |-> TRUE, mj |-> e.mj, mq |-> e.mq] ELSE @,
                                                !.idp = Append(@, [id |-> F.fnp.id, ps |-> CASE F.fnp.k = "missing" -> {"C08"} [] F.fnp.k = "deny" -> {"C09"} [] OTHER -> {"C11"}])]
                       ELSE s1
                 locprops == CASE F.fnp.k = "missing" -> {"C08", "C04"} [] F.fnp.k = "deny" -> {"C09", "C04"} [] OTHER -> {"C11", "C04"}
             IN IF ~SameBag(e.other, c.ids) THEN Flag(s1, {"C11", "C01"}, "the error handed over is not the error the user function returned")
                ELSE IF e.ety # c.ety THEN Flag(s1, {"C11"}, "a conversion error is merged under the wrong error type (field-level vs container)")
-               ELSE IF e.loc # c.loc THEN Flag(s1, locprops, "a user function's error is handed over at the wrong location")
+               ELSE IF ~locok THEN Flag(s1, locprops, "a user function's error is handed over at the wrong location")
                ELSE IF isrep /\ F.fnp.id \in s.made THEN Flag(s1, {"C01", "C11"}, "a user function's error is reported twice")
                ELSE IF isrep /\ s.cur.stopped THEN Flag(s1, {"C03"}, "a new report is produced although the error type answered stop and was never told to continue since")
                ELSE Seen([s2 EXCEPT !.stack = AfterFnMrg(s.stack, e.ans), !.cur = [@ EXCEPT !.stopped = (e.ans = "b")]], {"C11", "C04", "C01", "C03"})
@@ -297,7 +314,11 @@ OnExit(s, e) ==
         bagok == SameBag(e.err.ids, SetAsSeq(F.since))
     IN IF e.n # F.n THEN Flag(s, {"CONF"}, "exit of a node that is not on top of the stack")
        ELSE IF F.ph = "jbad" THEN
-            IF e.ok THEN Flag(s, {"C13", "C01"}, "a non-representable float is accepted into a JSON document")
+            \* Freedom: a float JSON cannot hold is either reported (the pinned code) or becomes null as in From<Value<V>> - no property
+            \* says which; what may not happen is a report together with Ok, or any other document
+            IF e.ok THEN (IF F.since = {} /\ e.val = RV("json", FALSE, 0, DZero, "", "", <<BackOf(F.val)>>)
+                          THEN [s1 EXCEPT !.waived = @ \o LET ls == LeavesAsSeq(NonFiniteLeaves(F.val, F.loc)) IN [j \in 1..Len(ls) |-> Desc("unexpected", ls[j], "", 0, NullV, {})]]
+                          ELSE Flag(s, {"C13", "C01"}, "a serde_json::Value target returns Ok after a report, or another document than the payload (non-finite floats as null)"))
             ELSE IF bagok THEN s1 ELSE Flag(s, {"C01"} \cup KeepGoing(s), "the returned error is not made of exactly the reports made since the call was entered")
        ELSE IF e.ok THEN
             IF F.since # {} THEN Flag(s, {"C01"} \cup KeepGoing(s) \cup LostProps(s, F.since, <<>>) \cup (IF IsMapTarget(N) THEN {"C06"} ELSE {}), "Ok is returned although a report was made inside")
@@ -330,7 +351,7 @@ OnDone(s, e) ==
     LET s1 == [s EXCEPT !.phase = "done"]
         faults == Faults(s.cur.ty, s.cur.val, <<>>, s.cur.pk, s.fnf)
     IN IF s.cur.allc
-       THEN (IF SameBag(s.reps, faults) THEN Seen(s1, {"C02", "C08", "C09", "C10"})
+       THEN (IF SameBag(s.reps \o s.waived, faults) THEN Seen(s1, {"C02", "C08", "C09", "C10"})
              ELSE Flag(s1, {"C02"}, "the keep-going run does not report exactly the independent faults of the payload"))
        ELSE s1
 
